@@ -75,7 +75,7 @@ fn emit(b: &mut Builder, ops: &[POp], wires: &[usize]) {
     for o in ops {
         match o {
             POp::Panic { cond, reason, line } => {
-                b.push_panic_if(wires[*cond], *reason, MetaInfo { start: (*line, 1), end: (*line, 2) });
+                b.push_panic_if(wires[*cond], *reason, MetaInfo { start: (*line, 3 * *line + 1), end: (2 * *line + 1, 5 * *line + 2) });
             }
             POp::Branch { cond, t, f } => {
                 let w = wires.to_vec();
@@ -137,9 +137,9 @@ pub fn run(k: usize, cache: bool, ops: &[POp]) -> Result<(), String> {
                 if !has {
                     return Err(format!("input {a:#b}: operation at line {l} fails (reason {r}) but the circuit reports no panic"));
                 }
-                if reason != r as usize || start_line != l || end_line != l || start_col != 1 || end_col != 2 {
+                if reason != r as usize || start_line != l || end_line != 2 * l + 1 || start_col != 3 * l + 1 || end_col != 5 * l + 2 {
                     return Err(format!(
-                        "input {a:#b}: first failing operation is reason {r} at line {l}, circuit reports reason {reason} at {start_line}:{start_col}-{end_line}:{end_col}"
+                        "input {a:#b}: first failing operation is reason {r} at line {l}, circuit reports reason {reason} at {start_line}:{start_col}-{end_line}:{end_col} (locations are encoded as line l -> l:3l+1 - 2l+1:5l+2)"
                     ));
                 }
             }
